@@ -496,7 +496,7 @@ def compare(case, out, model):
             if b != mi and (not others or min(others) > 1e-6):
                 v.append((f"{PID}/{E}/best_idx/index-differs-from-model", f"best_idx_={b}, model {mi} with a unique "
                           f"minimum", "best_idx_ = Grid.select index when the minimum is unique", "correspondence"))
-    v += _compare_fit(case, out, model, w)
+    v += _compare_fit(case, out, model, w)[0]
     return v
 
 
@@ -514,12 +514,13 @@ def _compare_fit(case, out, model, w):
     """(7) the Gallina fit loop (model grid -> signed weights -> relabel / reweight -> exact learner -> records ->
     select) against objectives_ / gammas_ per grid point and the loss value at best_idx_"""
     v = []
+    st = {"strong": 0, "weak": 0}
     E = "GridSearch.fit"
     fit = model.get("fit")
     if fit is None:
         v.append((f"{PID}/model/fit-loop/no-grid", "the fit-loop model produced no grid", "model grid exists",
                   "correspondence"))
-        return v
+        return v, st
     try:
         perm = [fit["keys"].index(k) for k in _impl_keys(case, out)]
     except ValueError:
@@ -527,27 +528,28 @@ def _compare_fit(case, out, model, w):
     if perm is None or sorted(perm) != list(range(len(fit["keys"]))):
         v.append((f"{PID}/{E}/gammas/index-differs-from-fit-model", f"implementation index {out['index']} model keys "
                   f"{fit['keys']}", "constraint index = Moments.index as a set", "correspondence"))
-        return v
+        return v, st
     pts = fit["points"]
     if len(pts) != len(out["objectives"]) or len(pts) != len(out["gammas"]):
         v.append((f"{PID}/{E}/objectives/count-differs-from-fit-model", f"{len(out['objectives'])} records, model "
                   f"{len(pts)}", "one record per multiplier vector", "correspondence"))
-        return v
+        return v, st
     strong = True
     for i, pt in enumerate(pts):
         lam_i, gam_i, obj_i = out["lambdas"][i], out["gammas"][i], out["objectives"][i]
         if len(gam_i) != len(perm) or len(lam_i) != len(perm):
             v.append((f"{PID}/{E}/gammas/length-differs-from-fit-model", f"grid point {i}: {len(gam_i)} entries",
                       "gammas_ column has one entry per index entry", "correspondence"))
-            return v
+            return v, st
         if any(not num_close(lam_i[j], pt["lam"][perm[j]]) for j in range(len(perm))):
             v.append((f"{PID}/{E}/lambda_vecs/alignment-differs-from-fit-model", f"grid point {i}: implementation "
                       f"{lam_i} (index {out['index']}), model {[str(q) for q in pt['lam']]} (keys {fit['keys']})",
                       "multipliers aligned with the constraint index by label", "correspondence"))
-            return v
+            return v, st
         same = num_close(obj_i, pt["obj"]) and all(num_close(gam_i[j], pt["gamma"][perm[j]])
                                                    for j in range(len(perm)))
         if same:
+            st["strong"] += 1
             continue
         L_impl = obj_i + sum(a * b for a, b in zip(lam_i, gam_i))
         L_model = pt["obj"] + sum(a * b for a, b in zip(pt["lam"], pt["gamma"]))
@@ -560,13 +562,14 @@ def _compare_fit(case, out, model, w):
                       f"{float(pt['margin'])}) gives objective {float(pt['obj'])} gamma "
                       f"{[float(pt['gamma'][perm[j]]) for j in range(len(perm))]}",
                       "objectives_[i], gammas_[i] = GridSearch.fit_cls / fit_loss at grid point i", "correspondence"))
-            return v
+            return v, st
+        st["weak"] += 1
         strong = False       # a tied vote: the trained predictor is not unique, its Lagrangian value is
         if not num_close(L_impl, L_model, atol=1e-8, rtol=1e-8):
             v.append((f"{PID}/{E}/records/lagrangian-differs-from-fit-model", f"grid point {i} (lambda={lam_i}, tied "
                       f"vote): objective + lambda.gamma is {L_impl}, model {float(L_model)}",
                       "objective + lambda.gamma at grid point i = value of the model's best response", "correspondence"))
-            return v
+            return v, st
     b = out["best_idx"]
     if strong and fit["select"] is not None and 0 <= b < len(out["gammas"]):
         mi, mv = fit["select"]
@@ -575,7 +578,7 @@ def _compare_fit(case, out, model, w):
             v.append((f"{PID}/{E}/best_idx/loss-differs-from-fit-model", f"recorded loss at best_idx_={b} is {rec_b}, "
                       f"the fit-loop model selects index {mi} with loss {float(mv)}",
                       "loss at best_idx_ = minimum of the model's trade-off losses", "correspondence"))
-    return v
+    return v, st
 
 
 def tags(case, out, model):
@@ -594,6 +597,8 @@ def tags(case, out, model):
     if model is not None and model.get("fit"):
         t.append("fit-model:tied-vote" if any(p["margin"] == 0 for p in model["fit"]["points"])
                  else "fit-model:no-tie")
+        st = _compare_fit(case, out, model, float(Fraction(case["constraint_weight"])))[1]
+        t.append("fit-model:all-records-equal" if st["weak"] == 0 else "fit-model:some-point-by-lagrangian-value")
     return t
 
 
